@@ -43,9 +43,10 @@ func (c *Ctx) stepWalkAnalysis() (*pta.Analysis, *ssa.Function, *ssa.Function) {
 
 // C06: the engine holds no state.
 func C06(c *Ctx) {
-	c.R.Explanation = "Decides two structural necessary conditions of 'processing never modifies what it is given': (R1) no store, map update, delete, copy or append in the call-graph closure of Spec.Step / Spec.Walk (packages core, match; callbacks cut by A2) may target memory reachable from the spec, state, pending message(s), control or props arguments, or a package-level variable; (R2) the bindings map of every state returned through Stride.From/To (and Walked.Strides) is never the bindings map of the given state. Decided by an inclusion-based points-to/effect analysis over SSA for all paths and inputs at once. Not decided: equality of repeated runs, sharing below the top-level bindings map."
+	c.R.Explanation = "Decides two structural necessary conditions of 'processing never modifies what it is given': (R1) no store, map update, delete, copy or append in the call-graph closure of Spec.Step / Spec.Walk (packages core, match; callbacks cut by A2) may target memory reachable from the spec, state, pending message(s), control or props arguments, or a package-level variable; (R2) the bindings map of every state returned through Stride.From/To (and Walked.Strides) is never the bindings map of the given state; (R3) the in-repo ECMAScript interpreter, which E1 reaches only through the action callback it cuts, hands scripts nothing from which the caller's bindings (any depth) or the props map are reachable. Decided by an inclusion-based points-to/effect analysis over SSA for all paths and inputs at once. Not decided: equality of repeated runs, sharing below the top-level bindings map."
 	c.R.Rule("C06-R1", "E1", "no write through any argument of Step/Walk nor to a package-level variable", 10)
 	c.R.Rule("C06-R2", "E1", "returned states' bindings maps never alias the given state's bindings map", 3)
+	c.R.Rule("C06-R3", "E1", "ECMAScript actions and guards see copies: no caller data reachable from values given to the script runtime", 1)
 	a, step, walk := c.stepWalkAnalysis()
 	if a == nil {
 		return
@@ -77,6 +78,12 @@ func C06(c *Ctx) {
 	strides := a.Deref(a.Deref(wl, ".Strides"), "[]")
 	check("Walk:result.Strides[].From.Bs", a.Deref(a.Deref(strides, ".From"), ".Bs"), c.P.Pos(walk.Pos()))
 	check("Walk:result.Strides[].To.Bs", a.Deref(a.Deref(strides, ".To"), ".Bs"), c.P.Pos(walk.Pos()))
+	// R3: the in-repo interpreter (reached through the action callback, which E1 cuts) gives scripts copies only
+	if ea, _ := c.ecmaAnalysis(); ea != nil {
+		if c.scriptIsolation("C06-R3", ea, false) == 0 {
+			c.R.Break("C06-R3: no value handed to the script runtime found")
+		}
+	}
 	c.R.Extra["roots"] = []string{"spec", "state", "pending", "control", "props"}
 	c.R.Extra["write_sites_examined"] = countReachedWrites(a)
 }
@@ -91,18 +98,14 @@ func countReachedWrites(a *pta.Analysis) int {
 	return n
 }
 
-// C03: Match is pure.
-func C03(c *Ctx) {
-	c.R.Explanation = "Decides structural necessary conditions of 'matching is a pure function': (R1) no store/map update/delete/copy/append reachable from Matcher.Match, Matcher.Matches or match.Match may target the pattern, the fact, the given bindings or a package-level variable (this is also the structural part of safe concurrent matching); (R2) no map in the returned slice is the given bindings map; (R3) no loop ranging directly over a Go map has early exits of two different outcome classes (error vs plain no-match), which would make the outcome depend on iteration order. (R5) bindings extended inside a loop over alternatives live in storage created in that iteration, so returned sets are independent maps. The matcher value itself is a protected root too (no hidden state, e.g. a memo table). Not decided: determinism of the result multiset in general."
-	c.R.Rule("C03-R1", "E1", "inputs untouched: no write to pattern, fact, bindings or globals in Match's closure", 8)
-	c.R.Rule("C03-R2", "E1", "returned binding sets never alias the given bindings", 3)
-	c.R.Rule("C03-R3", "E3", "no map range with exits of two outcome classes (error vs no match)", 3)
-	c.R.Rule("C03-R5", "E5+E3", "results are independent: alternatives never share writable bindings", 2)
+// matchAnalysis runs E1 from the exported matching API with pattern, message,
+// bindings and the matcher itself protected.
+func (c *Ctx) matchAnalysis() (*pta.Analysis, []*ssa.Function) {
 	mm := c.fn("match", "Matcher", "Match")
 	ms := c.fn("match", "Matcher", "Matches")
 	m := c.fn("match", "", "Match")
 	if mm == nil || ms == nil || m == nil {
-		return
+		return nil, nil
 	}
 	roots := map[*ssa.Function]map[int]pta.RootSpec{}
 	for _, f := range []*ssa.Function{mm, ms, m} {
@@ -127,6 +130,21 @@ func C03(c *Ctx) {
 	a := pta.New(pta.Config{Prog: c.P, EnginePkgs: map[string]bool{"match": true}, Entries: []*ssa.Function{mm, ms, m}, Roots: roots, External: stdExternal})
 	a.Run()
 	c.noteAnalysis(a)
+	return a, []*ssa.Function{mm, ms, m}
+}
+
+// C03: Match is pure.
+func C03(c *Ctx) {
+	c.R.Explanation = "Decides structural necessary conditions of 'matching is a pure function': (R1) no store/map update/delete/copy/append reachable from Matcher.Match, Matcher.Matches or match.Match may target the pattern, the fact, the given bindings or a package-level variable (this is also the structural part of safe concurrent matching); (R2) no map in the returned slice is the given bindings map; (R3) no loop ranging directly over a Go map has early exits of two different outcome classes (error vs plain no-match), which would make the outcome depend on iteration order. (R5) bindings extended inside a loop over alternatives live in storage created in that iteration, so returned sets are independent maps. The matcher value itself is a protected root too (no hidden state, e.g. a memo table). Not decided: determinism of the result multiset in general."
+	c.R.Rule("C03-R1", "E1", "inputs untouched: no write to pattern, fact, bindings or globals in Match's closure", 8)
+	c.R.Rule("C03-R2", "E1", "returned binding sets never alias the given bindings", 3)
+	c.R.Rule("C03-R3", "E3", "no map range with exits of two outcome classes (error vs no match)", 3)
+	c.R.Rule("C03-R5", "E5+E3", "results are independent: alternatives never share writable bindings", 2)
+	a, entries := c.matchAnalysis()
+	if a == nil {
+		return
+	}
+	mm, ms, m := entries[0], entries[1], entries[2]
 	c.reportEffects("C03-R1", a, nil)
 	c.dischargeWrites("C03-R1", a)
 	given := a.RootObj("bindings", "")
